@@ -287,8 +287,24 @@ fn case(h: &H, idx: u64, kind: u64, rng: &mut Rng) {
         // unitconvert == adapt for deg/gon <-> rad
         6 => {
             let (unit, suffix) = *rng.pick(&[("deg", "_deg"), ("grad", "_gon")]);
-            let adef = format!("adapt from=enuf{suffix}");
-            let udef = format!("unitconvert xy_in={unit} xy_out=rad");
+            // half of the time with the axes in any order and of any sign: the angular unit
+            // belongs to the horizontal axes wherever the descriptor puts them, so adapt equals
+            // the re-ordering followed by the unit conversion of the first two (internal) axes
+            let (adef, udef) = if rng.chance(0.5) {
+                let pairs = [['e', 'w'], ['n', 's'], ['u', 'd'], ['f', 'p']];
+                let mut axes = [0usize, 1, 2, 3];
+                rng.shuffle(&mut axes);
+                let neg: Vec<bool> = (0..4).map(|_| rng.chance(0.5)).collect();
+                let mut desc = String::new();
+                let mut order = Vec::new();
+                for i in 0..4 {
+                    desc.push(pairs[axes[i]][if neg[i] { 1 } else { 0 }]);
+                    order.push(format!("{}{}", if neg[i] { "-" } else { "" }, axes[i] + 1));
+                }
+                (format!("adapt from={desc}{suffix}"), format!("axisswap inv order={} | unitconvert xy_in={unit} xy_out=rad", order.join(",")))
+            } else {
+                (format!("adapt from=enuf{suffix}"), format!("unitconvert xy_in={unit} xy_out=rad"))
+            };
             let (Ok(a), Ok(u)) = (ctx.op(&adef), ctx.op(&udef)) else {
                 v(h, idx, "unitconvert-adapt/instantiation", J::obj().set("adapt", &adef).set("unitconvert", &udef));
                 return;
